@@ -516,6 +516,11 @@ impl Settings {
             return Err(SettingsError::Exceeded);
         }
 
+        // values are sent as variable-length integers
+        if value > VarInt::MAX.0 {
+            return Err(SettingsError::InvalidSettingValue(id, value));
+        }
+
         //= https://www.rfc-editor.org/rfc/rfc9114#section-7.2.4
         //# The same setting identifier MUST NOT occur more than once in the
         //# SETTINGS frame.
